@@ -619,7 +619,7 @@ package url
 //@   ensures (url != nil && stateOverride == StateFragment) ==> sameButFragment(url)   [C05]
 //@   ensures (url != nil && stateOverride == StateQuery) ==> sameButQuery(url)   [C05]
 //@   ensures (url != nil && stateOverride == StatePort) ==> sameButPort(url)   [C05]
-//@   ensures (url != nil && (stateOverride == StateFragment || stateOverride == StateQuery) && !p.opts.failOnValidationError) ==> result1 == nil   [C05]
+//@   ensures (url != nil && (stateOverride == StateFragment || stateOverride == StateQuery || stateOverride == StatePathStart) && !p.opts.failOnValidationError) ==> result1 == nil   [C05]
 //@   ensures (url != nil && stateOverride == StateFragment && result1 == nil && p.opts.encodingOverride == nil) ==>
 //@           *url.fragment == encWith(fragSet(url), old(cleaned(urlOrRef)))   [C05 hash-value]
 //@   ensures (url != nil && stateOverride == StateQuery && result1 == nil && p.opts.encodingOverride == nil) ==>
@@ -636,6 +636,7 @@ package url
 //@   ensures (url != nil && stateOverride == StatePort && result1 != nil) ==> (url.port == old(url.port) && url.decodedPort == old(url.decodedPort))   [C05 port-setter-failure-changes-nothing]
 //@   ensures (url != nil && stateOverride == StatePort && result1 == nil) ==> (portDigits(url) != "" && specAtoiOK(portDigits(url)) && specAtoiVal(portDigits(url)) <= 65535 && ((special(url, url.scheme) && defPort(url, url.scheme) == specItoa(specAtoiVal(portDigits(url)))) ? (url.port == nil && url.decodedPort == 0) : (url.port != nil && *url.port == specItoa(specAtoiVal(portDigits(url))) && url.decodedPort == specAtoiVal(portDigits(url)))))   [C05 port-setter-value]
 //@   ensures (url != nil && stateOverride == StatePort && !p.opts.failOnValidationError && portDigits(url) != "" && specAtoiOK(portDigits(url)) && specAtoiVal(portDigits(url)) <= 65535) ==> result1 == nil   [C05 port-setter-accepts]
+//@   ensures (url != nil && stateOverride == StatePathStart && url.host == nil && result1 == nil) ==> len(url.path.p) >= 1   [C05,C04 pathname-setter-never-leaves-a-host-less-url-without-a-path]
 //@   ensures (url != nil && stateOverride == StateSchemeStart) ==> special(url, url.scheme) == old(special(url, url.scheme))   [C05,C07,C09 scheme-setter-keeps-specialness]
 //@   ensures (url != nil && stateOverride == StateSchemeStart && url.scheme != old(url.scheme)) ==>
 //@           (url.inputUrl == old(cleaned(urlOrRef)) && hasSch(url) && url.scheme == specLowerRunes(inC(url), schEnd(url)))   [C05 protocol-value]
@@ -1039,6 +1040,7 @@ package url
 //@   ensures wf(u)   [C02,C04,C19]
 //@   ensures old(shapeP(u)) ==> shapeP(u)   [C04,C05 shape-preserved-by-setters]
 //@   ensures keptArrays(u)
+//@   ensures (!old(u.path.opaque) && u.host == nil && !u.parser.opts.failOnValidationError) ==> len(u.path.p) >= 1   [C05,C04 pathname-setter-never-leaves-a-host-less-url-without-a-path]
 //@   ensures old(collapsedOK(u)) ==> collapsedOK(u)   [C16 collapse-leaves-no-empty-non-final-segment]
 //@   ensures u.searchParams == old(u.searchParams)   [C12 other-setters-keep-the-list]
 //@   ensures old(u.path.opaque) ==> sameUrl(u)   [C05]
